@@ -255,6 +255,50 @@ fn compare(doc: &ExecDoc, di: usize, got: &ExecDoc) -> Result<(), (String, Strin
 
 /// Exhaustive product over SEM_SCHEMA argument locations x variable type (as declared / non-null) x
 /// default value (none, null, each literal form of the type) x directive on the definition.
+/// Documents whose fragment closure is reached in an order that meets one fragment twice before a new one: every
+/// ordered triple of spreads drawn from four fragments (two of which spread others) in one selection set, the same
+/// split over two sibling fields, and under a fragment definition of its own.
+pub fn fragment_closure_docs() -> Vec<String> {
+    let defs = [
+        ("P", "fragment P on User { id }\n"),
+        ("C", "fragment C on User { name }\n"),
+        ("N", "fragment N on User { age ...P }\n"),
+        ("M", "fragment M on User { kind ...P ...C }\n"),
+    ];
+    let mut out = vec![];
+    for a in 0..4 {
+        for b in 0..4 {
+            for c in 0..4 {
+                let (x, y, z) = (defs[a].0, defs[b].0, defs[c].0);
+                let bodies = [
+                    format!("query Q {{ u {{ ...{x} ...{y} ...{z} }} }}\n"),
+                    format!("query Q {{ u {{ ...{x} }} maybe {{ ...{y} ...{z} }} }}\n"),
+                    format!("query Q {{ u {{ ...W }} }}\nfragment W on User {{ ...{x} best {{ ...{y} ...{z} }} }}\n"),
+                ];
+                for body in bodies {
+                    // the definitions the document reaches (an unused fragment would make it invalid)
+                    let mut need: Vec<&str> = vec![];
+                    for n in [x, y, z] {
+                        for m in match n { "N" => vec!["N", "P"], "M" => vec!["M", "P", "C"], o => vec![o] } {
+                            if !need.contains(&m) {
+                                need.push(m);
+                            }
+                        }
+                    }
+                    let mut t = body;
+                    for (n, d) in defs {
+                        if need.contains(&n) {
+                            t.push_str(d);
+                        }
+                    }
+                    out.push(t);
+                }
+            }
+        }
+    }
+    out
+}
+
 pub fn var_matrix_docs() -> Vec<String> {
     // (selection using $v, location type, literal defaults of that type)
     let locs: [(&str, &str, &[&str]); 10] = [
@@ -540,7 +584,10 @@ pub fn run(args: &RunArgs) -> i32 {
         check_doc(doc, c.picks(), c.deviations());
     });
     // the variable-definition matrix: every (location, variable type, default, directive) combination
-    let vm = var_matrix_docs();
+    let mut vm = var_matrix_docs();
+    // fragment closures: a fragment met again (in a later sibling field, through another fragment, at an outer level)
+    // followed in the same selection set by a fragment not met before
+    vm.extend(fragment_closure_docs());
     crate::explore::par_for(vm.len(), args.threads, |i| {
         match crate::rparse::parse_exec(&vm[i]) {
             Ok(doc) => {
